@@ -344,6 +344,9 @@ class BehavioralRTLIRTypeCheckVisitorL1( bir.BehavioralRTLIRNodeVisitor ):
 
     try:
       node._value = node.value._value
+      # BitsN( -v ) is the N-bit two's complement value
+      if type( node._value ) is int:
+        node._value &= ( 1 << nbits ) - 1
     except AttributeError:
       pass
 
